@@ -101,7 +101,6 @@ ErrExpected(o, l, r) ==
   \/ o \in MatchOps /\ (r.k \notin {"str", "regex"} \/ r.s \in InvalidPatterns)
 
 \* errors exactly on the marked cells; results have the kind the tables promise
-CellLaw(o, l, r) == CellLawOn(o, l, r, BinOp(o, l, r))
 CellLawOn(o, l, r, res) ==
   /\ res.ok = ~ErrExpected(o, l, r)
   /\ res.ok /\ res.v.k # "unfixed" =>
@@ -112,6 +111,8 @@ CellLawOn(o, l, r, res) ==
   /\ (res.ok /\ res.v.k = "unfixed") = ~CmpFixed(o, l, r)
   /\ res.ok => res.v.k # "undefined"
 
+CellLaw(o, l, r) == CellLawOn(o, l, r, BinOp(o, l, r))
+
 \* the numbers that occur as num() of an operand, in increasing order (hand-written)
 NumOrder == <<Num(-7, 2, 0), I(-3), I(-1), Zero, Num(1, 1, -20), Num(1, 2, 0), I(1), I(2), Num(5, 2, 0), I(3),
               I(5), I(7), I(9), I(10), I(100), Num(1, 1, 53), Num(1, 1, 70)>>
@@ -120,11 +121,14 @@ NumOrderLaw ==
   /\ \A i, j \in 1..Len(NumOrder) : NumCmp(NumOrder[i], NumOrder[j]) = (IF i < j THEN -1 ELSE IF i > j THEN 1 ELSE 0)
   /\ NumCmp(Zero, NegZero) = 0 /\ NumCmp(NegZero, Zero) = 0
 
+SubLaw(d, e) == d.k = "num" => NumEq(d, Neg(e))                       \* l - r = -(r - l)
+DivLaw(l, r, q) == q.ok => NumEq(Mul(q.v, NumOf(r)), NumOf(l))          \* (l / r) * r = l, exactly
+RemLaw(a, b, m) == Abs(m) < Abs(b) /\ (m = 0 \/ (m < 0) = (a < 0)) /\ (a - m) % Abs(b) = 0
+ModLaw(tl, tr, res) == res.ok /\ res.v.k = "num" /\ Small(tl) /\ Small(tr) => RemLaw(IntOf(tl), IntOf(tr), IntOf(res.v))
+MatchLaw(m1, m2) == m1.ok = m2.ok /\ (m1.ok => B(m1) = ~B(m2))
+
 \* 3.4 / 3.5 and arithmetic identities on one ordered pair
-PairLaws(l, r) ==
-  LET lt == Compare("<", l, r)   gt == Compare(">", l, r)   eq == Compare("==", l, r)
-      ne == Compare("!=", l, r)  le == Compare("<=", l, r)  ge == Compare(">=", l, r)
-  IN
+PairLawsOn(l, r, lt, gt, eq, ne, le, ge) ==
   \* comparison laws for operands that are neither unset nor containers
   /\ Plain(l) /\ Plain(r) =>
        /\ \A x \in {lt, gt, eq, ne, le, ge} : IsBool(x)
@@ -154,17 +158,14 @@ PairLaws(l, r) ==
   \* arithmetic identities (exact, so they hold without rounding); ignoring the sign of zero
   /\ "str" \notin {l.k, r.k} => Arith("+", l, r) = Arith("+", r, l)
   /\ Arith("*", l, r) = Arith("*", r, l)
-  /\ LET d == Arith("-", l, r).v  e == Arith("-", r, l).v IN
-       d.k = "num" => NumEq(d, Neg(e))
-  /\ Arith("/", l, r).ok => NumEq(Mul(Arith("/", l, r).v, NumOf(r)), NumOf(l))
-  /\ Arith("%", l, r).ok /\ Arith("%", l, r).v.k = "num" /\ Small(Trunc(NumOf(l))) /\ Small(Trunc(NumOf(r))) =>
-       LET a == IntOf(Trunc(NumOf(l)))  b == IntOf(Trunc(NumOf(r)))  m == IntOf(Arith("%", l, r).v) IN
-       /\ Abs(m) < Abs(b)
-       /\ (m = 0 \/ (m < 0) = (a < 0))
-       /\ (a - m) % Abs(b) = 0
+  /\ SubLaw(Arith("-", l, r).v, Arith("-", r, l).v)
+  /\ DivLaw(l, r, Arith("/", l, r))
+  /\ ModLaw(Trunc(NumOf(l)), Trunc(NumOf(r)), Arith("%", l, r))
   \* ~ and !~ are each other's negation and fail together
-  /\ Match("~", l, r).ok = Match("!~", l, r).ok
-  /\ Match("~", l, r).ok => B(Match("~", l, r)) = ~B(Match("!~", l, r))
+  /\ MatchLaw(Match("~", l, r), Match("!~", l, r))
+
+PairLaws(l, r) ==
+  PairLawsOn(l, r, Compare("<", l, r), Compare(">", l, r), Compare("==", l, r), Compare("!=", l, r), Compare("<=", l, r), Compare(">=", l, r))
 
 \* laws of one value
 ValueLaws(v) ==
@@ -198,6 +199,7 @@ Laws == done =>
   /\ fam \in {"bin", "match"} => CellLaw(op, W[li], W[ri])
   /\ fam = "bin" /\ op = "==" => PairLaws(U[li], U[ri])
   /\ fam = "match" /\ op = "~" => PairLaws(W[li], W[ri])
+  /\ fam = "match" /\ op = "~" /\ li = 1 => ValueLaws(W[ri])            \* every value of W once
 
 \* bytewise order on strings is a total order (checked once, on all triples)
 StrOrderLaw ==
@@ -224,5 +226,4 @@ ASSUME UniverseOK
 ASSUME StrOrderLaw
 ASSUME NumOrderLaw
 ASSUME Anchors
-ASSUME \A i \in 1..NW : ValueLaws(W[i])
 =============================================================================
